@@ -24,7 +24,7 @@ Why(R) ==
   ELSE IF ~R.first.ok THEN "parsing a stream that begins with a complete pickle fails"
   ELSE IF R.first.dumps_len # w1 \/ ~R.first.dumps_is_slice THEN "re-serialising does not reproduce the bytes of the first pickle"
   ELSE IF R.first.pos_after # -1 /\ R.first.pos_after # R.offset + w1 THEN "stream is not positioned immediately after the first pickle"
-  ELSE IF R.kind # "bytes" /\ (R.first.rest_len # after \/ ~R.first.rest_is_tail) THEN "what follows the first pickle was consumed or altered"
+  ELSE IF R.kind \notin {"bytes", "bytearray"} /\ (R.first.rest_len # after \/ ~R.first.rest_is_tail) THEN "what follows the first pickle was consumed or altered"
   ELSE IF R.loader.ran /\ R.loader.returned /\ R.loader.pos_after # R.offset + w1 THEN "checked loader: stream is not positioned immediately after the first pickle"
   ELSE IF R.loader.ran /\ R.loader.returned /\ (R.loader.rest_len # after \/ ~R.loader.rest_is_tail) THEN "checked loader: what follows the first pickle was consumed or altered"
   ELSE IF R.stack.ran /\ R.trail = "none" /\ ~R.stack.ok THEN "parsing a concatenation of pickles as a stack fails"
